@@ -66,10 +66,17 @@ func main() {
 		switch strings.TrimSpace(p) {
 		case "12":
 			part12(*n)
+			limitSeqFamily("C12")
 			concurrentPairs()
+			dialerTier()
+		case "12d":
+			dialerTier()
+		case "12l":
+			limitSeqFamily("C12")
 		case "12c":
 			concurrentPairs()
 		case "13":
+			limitSeqFamily("C13")
 			part13(*n)
 		case "15":
 			part15(*n)
